@@ -254,9 +254,10 @@ func Build(form string, p *refcodec.Packet, from netip.Addr, c BuildCtx) ([]byte
 		}
 		m := refcodec.ICMP(6, from, to, 129, 0, rest, p.ICMPBody)
 		return refcodec.IPv6(from, to, refcodec.ProtoICMPv6, 60, m), nil
-	case form == "tcpack" || form == "tcpfinack" || form == "tcppshack":
+	case form == "tcpack" || form == "tcpfinack" || form == "tcppshack" || form == "tcpsyn":
 		// segments of an established connection from the target port, acknowledging the probe's sequence number
-		flags := map[string]uint8{"tcpack": refcodec.ACK, "tcpfinack": refcodec.ACK | refcodec.FIN, "tcppshack": refcodec.ACK | refcodec.PSH}[form]
+		// ("tcpsyn": a bare SYN from the target port - simultaneous open, a split-handshake server: neither SYN-ACK nor RST)
+		flags := map[string]uint8{"tcpack": refcodec.ACK, "tcpfinack": refcodec.ACK | refcodec.FIN, "tcppshack": refcodec.ACK | refcodec.PSH, "tcpsyn": refcodec.SYN}[form]
 		var payload []byte
 		if form == "tcppshack" {
 			payload = []byte("HTTP/1.1 400\r\n")
